@@ -18,10 +18,12 @@ import (
 	cfg "github.com/lianxiangcloud/linkchain/config"
 	cs "github.com/lianxiangcloud/linkchain/consensus"
 	cstypes "github.com/lianxiangcloud/linkchain/consensus/types"
+	auto "github.com/lianxiangcloud/linkchain/libs/autofile"
 	cmn "github.com/lianxiangcloud/linkchain/libs/common"
 	dbm "github.com/lianxiangcloud/linkchain/libs/db"
 	"github.com/lianxiangcloud/linkchain/libs/log"
 	"github.com/lianxiangcloud/linkchain/libs/p2p"
+	"github.com/lianxiangcloud/linkchain/libs/ser"
 	"github.com/lianxiangcloud/linkchain/types"
 
 	"verifh/cluster"
@@ -43,8 +45,10 @@ type mockPeer struct {
 	mu      sync.Mutex
 	kv      map[string]interface{}
 	out     []sent
-	running int32 // what IsRunning answers (the gossip routines poll it)
-	polls   int64 // number of IsRunning calls (one per iteration of each gossip routine)
+	running int32  // what IsRunning answers (the gossip routines poll it)
+	polls   int64  // number of IsRunning calls (one per iteration of each gossip routine)
+	onData  func() // called once from the next Send on the data channel (gossipDataRoutine sends a part or a proposal
+	//                and only then updates the PeerState: the harness delivers a racing message exactly there)
 }
 
 func newMockPeer(id string) *mockPeer {
@@ -57,18 +61,30 @@ func (p *mockPeer) IsRunning() bool {
 	atomic.AddInt64(&p.polls, 1)
 	return atomic.LoadInt32(&p.running) == 1
 }
-func (p *mockPeer) ID() string                  { return p.id }
-func (p *mockPeer) RemoteAddr() net.Addr        { return &net.TCPAddr{IP: net.IPv4(10, 0, 0, 9), Port: 1} }
-func (p *mockPeer) NodeInfo() p2p.NodeInfo      { return p2p.NodeInfo{} }
-func (p *mockPeer) IsOutbound() bool            { return false }
+func (p *mockPeer) ID() string                   { return p.id }
+func (p *mockPeer) RemoteAddr() net.Addr         { return &net.TCPAddr{IP: net.IPv4(10, 0, 0, 9), Port: 1} }
+func (p *mockPeer) NodeInfo() p2p.NodeInfo       { return p2p.NodeInfo{} }
+func (p *mockPeer) IsOutbound() bool             { return false }
 func (p *mockPeer) Status() p2p.ConnectionStatus { return p2p.ConnectionStatus{} }
 func (p *mockPeer) Send(ch byte, b []byte) bool {
 	p.mu.Lock()
 	if len(p.out) < 4096 {
 		p.out = append(p.out, sent{ch, b})
 	}
+	var hook func()
+	if ch == cs.DataChannel && p.onData != nil {
+		hook, p.onData = p.onData, nil
+	}
 	p.mu.Unlock()
+	if hook != nil {
+		hook()
+	}
 	return true
+}
+func (p *mockPeer) arm(f func()) {
+	p.mu.Lock()
+	p.onData = f
+	p.mu.Unlock()
 }
 func (p *mockPeer) TrySend(ch byte, b []byte) bool { return p.Send(ch, b) }
 func (p *mockPeer) Close() error                   { return nil }
@@ -139,16 +155,17 @@ func (m *mockSwitch) Broadcast(chID byte, b []byte) chan bool {
 func (m *mockSwitch) BroadcastE(chID byte, peerID string, b []byte) chan bool {
 	return m.Broadcast(chID, b)
 }
-func (m *mockSwitch) Peers() p2p.IPeerSet                      { return mockPeerSet{m} }
-func (m *mockSwitch) LocalNodeInfo() p2p.NodeInfo              { return p2p.NodeInfo{} }
+func (m *mockSwitch) Peers() p2p.IPeerSet                        { return mockPeerSet{m} }
+func (m *mockSwitch) LocalNodeInfo() p2p.NodeInfo                { return p2p.NodeInfo{} }
 func (m *mockSwitch) NumPeers() (outbound, inbound, dialing int) { return 0, len(m.peers), 0 }
-func (m *mockSwitch) MarkBadNode(nodeInfo p2p.NodeInfo)        {}
-func (m *mockSwitch) CloseAllConnection()                      {}
+func (m *mockSwitch) MarkBadNode(nodeInfo p2p.NodeInfo)          {}
+func (m *mockSwitch) CloseAllConnection()                        {}
 
 // ---- the cluster ------------------------------------------------------------------
 
 // rig is a cluster plus the reactor side of its target node.
 type rig struct {
+	wal    *walStats
 	cl     *cluster.Cluster
 	target int
 	conR   *cs.ConsensusReactor
@@ -156,12 +173,12 @@ type rig struct {
 	peer   *mockPeer
 }
 
-func (r *rig) node() *cluster.Node            { return r.cl.Nodes[r.target] }
-func (r *rig) state() *cs.ConsensusState      { return r.node().CS }
-func (r *rig) rs() *cstypes.RoundState        { return r.node().CS.GetRoundState() }
-func (r *rig) peerState() *cs.PeerState       { return r.peer.Get(types.PeerStateKey).(*cs.PeerState) }
-func (r *rig) prs() *cstypes.PeerRoundState   { return r.peerState().GetRoundState() }
-func (r *rig) status() cs.NewStatus           { return r.node().CS.VerifStatus() }
+func (r *rig) node() *cluster.Node          { return r.cl.Nodes[r.target] }
+func (r *rig) state() *cs.ConsensusState    { return r.node().CS }
+func (r *rig) rs() *cstypes.RoundState      { return r.node().CS.GetRoundState() }
+func (r *rig) peerState() *cs.PeerState     { return r.peer.Get(types.PeerStateKey).(*cs.PeerState) }
+func (r *rig) prs() *cstypes.PeerRoundState { return r.peerState().GetRoundState() }
+func (r *rig) status() cs.NewStatus         { return r.node().CS.VerifStatus() }
 
 // newCluster builds the cluster the way cluster.New does, with a genesis whose block
 // parts are small (several parts per block).
@@ -200,9 +217,11 @@ func bootNode(c *cluster.Cluster, n *cluster.Node) error {
 		return err
 	}
 	n.Mock = cluster.NewMockApp(&c.Counter)
-	n.App = n.Mock
+	n.App = safeApp{n.Mock}
 	conf := cfg.TestConsensusConfig()
 	conf.SkipTimeoutCommit = false
+	conf.PeerGossipSleepDuration = 1     // ms: the gossip routines iterate quickly in the gossip phase
+	conf.PeerQueryMaj23SleepDuration = 2 // ms
 	be := cs.NewBlockExecutor(n.StatusDB, log.NewNopLogger(), cs.MockEvidencePool{})
 	st := cs.NewConsensusState(conf, status, be, n.App, cs.MockMempool{}, cs.MockEvidencePool{})
 	st.SetLogger(log.NewNopLogger())
@@ -218,10 +237,61 @@ func bootNode(c *cluster.Cluster, n *cluster.Node) error {
 	return nil
 }
 
+// safeApp makes the mock application's loaders answer like the real BlockStore: nil for
+// what is not stored (the mock would index out of range / dereference nil instead).
+type safeApp struct{ *cluster.MockApp }
+
+func (a safeApp) LoadBlockPart(h uint64, i int) *types.Part {
+	ps := a.Parts[h]
+	if ps == nil || i < 0 || i >= ps.Total() {
+		return nil
+	}
+	return ps.GetPart(i)
+}
+func (a safeApp) LoadBlockCommit(h uint64) *types.Commit {
+	if b := a.Blocks[h+1]; b != nil {
+		return b.LastCommit
+	}
+	return nil
+}
+
+// encWAL stands in for the write-ahead log of the target: every message is encoded exactly as
+// WALEncoder.Encode does (ser.MustEncodeToBytes of a TimedWALMessage - a failure there is a panic
+// inside receiveRoutine) and dropped. It notes entries the WAL decoder would refuse to read back.
+type encWAL struct {
+	stats *walStats
+}
+type walStats struct {
+	entries  int
+	maxBytes int
+	tooBig   int // entries above the decoder's 1 MiB limit
+}
+
+func (w encWAL) Write(m cs.WALMessage) {
+	bz := ser.MustEncodeToBytes(&cs.TimedWALMessage{Time: time.Now(), Msg: m})
+	w.stats.entries++
+	if len(bz) > w.stats.maxBytes {
+		w.stats.maxBytes = len(bz)
+	}
+	if len(bz) > 1024*1024 {
+		w.stats.tooBig++
+	}
+}
+func (w encWAL) WriteSync(m cs.WALMessage) { w.Write(m) }
+func (encWAL) Group() *auto.Group          { return nil }
+func (encWAL) SearchForEndHeight(height uint64, options *cs.WALSearchOptions) (*auto.GroupReader, bool, error) {
+	return nil, false, nil
+}
+func (encWAL) Start() error { return nil }
+func (encWAL) Stop() error  { return nil }
+func (encWAL) Wait()        {}
+
 // attachReactor starts the real reactor on the target node and adds the attacker peer.
 // With gossip == false the peer reports IsRunning() == false, so the three gossip
 // routines AddPeer starts return at once and everything stays synchronous.
 func (r *rig) attachReactor(gossip bool) error {
+	r.wal = &walStats{}
+	r.state().VerifSetWAL(encWAL{r.wal})
 	r.sw = newMockSwitch()
 	r.conR = cs.NewConsensusReactor(r.state(), false, r.sw)
 	r.conR.SetLogger(log.NewNopLogger())
@@ -305,6 +375,9 @@ func sortBlocks(ls []string) string {
 	var blocks []string
 	cur := ""
 	for _, l := range ls {
+		if l == "}" || l == "" { // the closing brace of the HeightVoteSet follows whichever block the map iteration put last
+			continue
+		}
 		if strings.HasPrefix(l, "VoteSet{") {
 			if cur != "" {
 				blocks = append(blocks, cur)
@@ -332,5 +405,3 @@ func (r *rig) prsView() string {
 		p.Height, p.Round, p.Step, p.Proposal, p.ProposalBlockPartsHeader, p.ProposalBlockParts, p.ProposalPOLRound, p.ProposalPOL,
 		p.Prevotes, p.Precommits, p.LastCommitRound, p.LastCommit, p.CatchupCommitRound, p.CatchupCommit)
 }
-
-var _ = time.Now
